@@ -307,6 +307,10 @@ func runDirect(run *vk.Run, idx uint64) {
 }
 
 func main() {
+	if _, ok := vk.InChild(); ok {
+		e2eChild()
+		return
+	}
 	run := vk.Start("C01")
 	if rep, ok := vk.ReplayInput(); ok {
 		m, _ := rep["replay"].(map[string]any)
@@ -398,6 +402,7 @@ func main() {
 	}
 	wg.Wait()
 
+	e2eTier(run)
 	run.FloorCounter("pure_drops", 1000)
 	run.FloorCounter("pure_late_forwarded", 1000)
 	run.FloorCounter("pure_duplicates_same_number", 500)
